@@ -2,7 +2,8 @@
 
    The byte content of the buffer is abstracted to its write position [b_tell]; the Buffer object
    has capacity max_datagram_size and raises BufferWriteError on any write past it (src/aioquic/_buffer.c).
-   CryptoPair.encrypt_packet is an oracle returning header + payload + AEAD_TAG_SIZE bytes.
+   CryptoPair.encrypt_packet is an oracle returning header + payload + AEAD_TAG_SIZE bytes, or raising
+   CryptoError when that exceeds the size limit [c_cmax] of the crypto implementation.
    Exceptions are outcomes ([outcome]); the state after an exception is the state the Python object
    is left in (the code has no try/except).
 
@@ -17,7 +18,11 @@ Record cfg := mkCfg {
   c_host : Z;                 (* len(host_cid) *)
   c_token : Z;                (* len(peer_token) *)
   c_max_flight : option Z;    (* max_flight_bytes (None | int), set before the first start_packet *)
-  c_max_total : option Z      (* max_total_bytes *)
+  c_max_total : option Z;     (* max_total_bytes *)
+  c_cmax : option Z           (* the CryptoPair handed to start_packet: Some m = aioquic's own CryptoPair, whose
+                                 _crypto.c raises CryptoError when header + payload + tag exceed its m = 1500-byte
+                                 scratch buffers (AEAD.encrypt / HeaderProtection.apply length checks, fix f35cfc1);
+                                 None = a CryptoPair without a size limit *)
 }.
 
 (* the current packet: self._packet plus _header_size/_packet_start/_packet_type *)
@@ -64,8 +69,9 @@ Inductive outcome :=
 | OStop                    (* QuicPacketBuilderStop *)
 | OBufferWrite             (* BufferWriteError *)
 | OAssertion               (* AssertionError *)
-| OAttribute               (* AttributeError (use before the first start_packet / outside a packet) *)
-| OValue.                  (* ValueError *)
+| OAttribute               (* AttributeError (no longer raised by any modelled method since fix e93c691; code 4 kept) *)
+| OValue                   (* ValueError *)
+| OCrypto.                 (* CryptoError (a ValueError subclass) out of CryptoPair.encrypt_packet *)
 
 Definition zmem (x : Z) (l : list Z) : bool := existsb (Z.eqb x) l.
 Definition zsum (l : list Z) : Z := fold_right Z.add 0 l.
@@ -130,7 +136,10 @@ Definition end_packet (c : cfg) (s : st) (p : pkt) : outcome * st :=
       if padding >? 0 then (packet_size + padding, true) else (packet_size, p_inflight p) in
     let p1 := mkPkt (p_type p) (p_start p) (p_hdr p) inflight (p_ackel p) (p_crypto p) (p_pn p) in
     let sent := packet_size + AEAD_TAG_SIZE in
-    (* header is rewritten in place, then the encrypted packet is pushed from packet_start *)
+    (* header is rewritten in place, buf.seek(packet_start), encrypt_packet(...) is evaluated (it can raise
+       CryptoError), then the encrypted packet is pushed from packet_start *)
+    if (match c_cmax c with Some m => sent >? m | None => false end)
+    then (OCrypto, set_cur (set_tell s1 (p_start p)) (Some p1)) else
     if p_start p + sent >? c_mds c then (OBufferWrite, set_cur (set_tell s1 (p_start p)) (Some p1)) else
     let dgf := if inflight then b_dgflight s + sent else b_dgflight s in
     let s2 := mkSt (p_start p + sent) (b_bcap s) (b_fcap s) dgf (b_dginit s) pad2 (b_flight s) (b_total s)
@@ -184,20 +193,32 @@ Definition start_packet (c : cfg) (s : st) (t : Z) : outcome * st :=
   | _ => (o, s1)
   end.
 
+(* start_frame.  Since fix e93c691 the first thing evaluated is self.packet_is_empty, which asserts
+   self._packet is not None: outside a packet (before the first start_packet, after a flush, after a
+   start_packet that raised QuicPacketBuilderStop) start_frame raises AssertionError and changes nothing.
+   In an EMPTY packet the declared capacity is raised to START_FRAME_EMPTY_RESERVE
+   (= PACKET_NUMBER_MAX_SIZE - PACKET_NUMBER_SEND_SIZE in the source: room for the header-protection sample
+   padding that _end_packet adds to a packet with a one-byte payload) before the two space checks.
+   _packet and _packet_crypto are set together by start_packet, so the AttributeError of
+   remaining_buffer_space (no _packet_crypto) cannot be reached any more; its place in the order of
+   evaluation is kept. *)
 Definition start_frame (c : cfg) (s : st) (ft cap : Z) : outcome * st :=
-  if negb (b_hascrypto s) then (OAttribute, s) else
-  let nif := zmem ft NON_IN_FLIGHT in
-  let nae := zmem ft NON_ACK_ELICITING in
-  if (remaining_buffer_space s <? cap) || (negb nif && (remaining_flight_space s <? cap)) then (OStop, s) else
-  (* Buffer.push_uint_var: the "K" argument format reduces modulo 2^64 *)
-  match size_uint_var (ft mod 18446744073709551616) with
-  | None => (OValue, s)
-  | Some sz =>
-      if b_tell s + sz >? c_mds c then (OBufferWrite, s) else
-      let s1 := set_tell s (b_tell s + sz) in
-      match b_cur s with
-      | None => if negb nae || negb nif || (ft =? FT_CRYPTO) then (OAttribute, s1) else (ODone, s1)
-      | Some p =>
+  match b_cur s with
+  | None => (OAssertion, s)
+  | Some p =>
+      let cap := if b_tell s - p_start p <=? p_hdr p
+                 then (if cap <? START_FRAME_EMPTY_RESERVE then START_FRAME_EMPTY_RESERVE else cap)
+                 else cap in
+      if negb (b_hascrypto s) then (OAttribute, s) else
+      let nif := zmem ft NON_IN_FLIGHT in
+      let nae := zmem ft NON_ACK_ELICITING in
+      if (remaining_buffer_space s <? cap) || (negb nif && (remaining_flight_space s <? cap)) then (OStop, s) else
+      (* Buffer.push_uint_var: the "K" argument format reduces modulo 2^64 *)
+      match size_uint_var (ft mod 18446744073709551616) with
+      | None => (OValue, s)
+      | Some sz =>
+          if b_tell s + sz >? c_mds c then (OBufferWrite, s) else
+          let s1 := set_tell s (b_tell s + sz) in
           (ODone, set_cur s1 (Some (mkPkt (p_type p) (p_start p) (p_hdr p)
                                           (p_inflight p || negb nif) (p_ackel p || negb nae)
                                           (p_crypto p || (ft =? FT_CRYPTO)) (p_pn p))))
@@ -247,9 +268,13 @@ Fixpoint run (c : cfg) (s : st) (ops : list op) : st * list Z :=
   | o :: t => let '(_, s', d) := step c s o in let '(s'', d') := run c s' t in (s'', d ++ d')
   end.
 
-(* Caller discipline (what connection.py's frame writers do): frames and pushes only inside an open
-   packet, a frame's declared capacity covers its type varint, and every push fits the remaining
-   buffer space. *)
+(* Caller discipline (what connection.py's frame writers do): frames only inside an open packet, a
+   frame's declared capacity covers its type varint, bytes are pushed only into the buffer handed out by
+   start_frame (i.e. after a frame has been started in the open packet: the packet is no longer empty),
+   and every push fits the remaining buffer space. *)
+Definition cur_nonempty (s : st) : bool :=
+  match b_cur s with Some p => negb (b_tell s - p_start p <=? p_hdr p) | None => false end.
+
 Definition op_disciplined (s : st) (o : op) : bool :=
   match o with
   | OpStartPacket _ | OpFlush => true
@@ -258,7 +283,7 @@ Definition op_disciplined (s : st) (o : op) : bool :=
       | Some _, Some sz => sz <=? cap
       | _, _ => false
       end
-  | OpPush n => match b_cur s with Some _ => (0 <=? n) && (n <=? remaining_buffer_space s) | None => false end
+  | OpPush n => cur_nonempty s && (0 <=? n) && (n <=? remaining_buffer_space s)
   end.
 
 Fixpoint disciplined (c : cfg) (s : st) (ops : list op) : bool :=
@@ -271,22 +296,8 @@ Fixpoint disciplined (c : cfg) (s : st) (ops : list op) : bool :=
 Definition cur_payload (s : st) : Z :=
   match b_cur s with Some p => b_tell s - p_start p - p_hdr p | None => 0 end.
 
-(* additionally: no packet is completed with a payload of exactly one byte (such a packet gets one
-   byte of header-protection sample padding that start_frame's space check did not account for) *)
-Definition op_nosample (s : st) (o : op) : bool :=
-  match o with
-  | OpStartPacket _ | OpFlush => negb (cur_payload s =? 1)
-  | _ => true
-  end.
-
-Fixpoint nosample (c : cfg) (s : st) (ops : list op) : bool :=
-  match ops with
-  | [] => true
-  | o :: t => op_nosample s o && (let '(_, s', _) := step c s o in nosample c s' t)
-  end.
-
 (* ---------- executable interface ------------------------------------------------------------
-   input:  is_client mds peer host token  mf_opt mt_opt  pn   ops...
+   input:  is_client mds peer host token  mf_opt mt_opt cmax_opt  pn   ops...
            opt = 0 | 1 v
    ops:    0 t = start_packet ; 1 ft cap = start_frame ; 2 n = push ; 3 = flush
    output per op: outcome code, then observers
@@ -294,7 +305,7 @@ Fixpoint nosample (c : cfg) (s : st) (ops : list op) : bool :=
              packet_is_empty (1 b | 0 when no packet), packet_number;
            for flush additionally: n, per datagram (len, has_init) ; m, per packet 6 fields *)
 Definition out_outcome (o : outcome) : Z :=
-  match o with ODone => 0 | OStop => 1 | OBufferWrite => 2 | OAssertion => 3 | OAttribute => 4 | OValue => 5 end.
+  match o with ODone => 0 | OStop => 1 | OBufferWrite => 2 | OAssertion => 3 | OAttribute => 4 | OValue => 5 | OCrypto => 6 end.
 
 Definition obs (s : st) : list Z :=
   (if b_hascrypto s then [1; remaining_buffer_space s; remaining_flight_space s] else [0]) ++
@@ -335,9 +346,10 @@ Definition exec_builder (toks : list Z) : list Z :=
   | cl :: mds :: peer :: host :: token :: r =>
       let '(mf, r) := tk_opt r in
       let '(mt, r) := tk_opt r in
+      let '(cm, r) := tk_opt r in
       match r with
       | pn :: r =>
-          let c := mkCfg (z2b cl) mds peer host token mf mt in
+          let c := mkCfg (z2b cl) mds peer host token mf mt cm in
           exec_ops (length r) c (init_st c pn) r
       | [] => []
       end
